@@ -14,10 +14,26 @@ Fixpoint assoc_str (l : list term) (k : string) : option term :=
   | _ :: r => assoc_str r k
   end.
 
+(* a config travels as its difference from the default: [field index; value] *)
+Fixpoint assoc_pairs (l : list (string * string)) (k : string) : option string :=
+  match l with
+  | [] => None
+  | (k', v) :: r => if String.eqb k' k then Some v else assoc_pairs r k
+  end.
+Definition no_field : field :=
+  {| f_name := "?"; f_url := ""; f_saved := false; f_kind := KStr; f_choices := []; f_default := ""; f_transient := false |}.
 Definition cfg_of (t : term) : config :=
-  let l := gl t in fun n => match assoc_str l n with Some v => gs v | None => "" end.
-Definition of_cfg (c : config) : term :=
-  TL (map (fun f => TL [TS (f_name f); TS (c (f_name f))]) flds).
+  let l := map (fun p => (f_name (nth (Z.to_nat (gz (gn p 0))) flds no_field), gs (gn p 1))) (gl t) in
+  fun n => match assoc_pairs l n with Some v => v | None => default_cfg flds n end.
+Fixpoint of_cfg_go (c : config) (fs : list field) (i : Z) : list term :=
+  match fs with
+  | [] => []
+  | f :: r =>
+      let v := c (f_name f) in
+      if String.eqb v (f_default f) then of_cfg_go c r (i + 1)
+      else TL [TZ i; TS v] :: of_cfg_go c r (i + 1)
+  end.
+Definition of_cfg (c : config) : term := TL (of_cfg_go c flds 0).
 
 Definition values_of (t : term) : values := map (fun kv => (gs (gn kv 0), gss (gn kv 1))) (gl t).
 
@@ -30,8 +46,15 @@ Definition sort_values (q : values) : values := fold_right ins_kv [] q.
 Definition of_values (q : values) : term :=
   TL (map (fun kv => TL [TS (fst kv); of_ss (snd kv)]) (sort_values q)).
 
-Definition pf_of (t : term) : string -> option string :=
-  let l := gl t in fun s => match assoc_str l s with Some (TL [TS c]) => Some c | _ => None end.
+(* float oracle table: [s] = parses and prints as itself, [s; c] = prints as c, absent = error *)
+Fixpoint pf_lookup (l : list term) (s : string) : option string :=
+  match l with
+  | [] => None
+  | TL [TS k] :: r => if String.eqb k s then Some k else pf_lookup r s
+  | TL [TS k; TS c] :: r => if String.eqb k s then Some c else pf_lookup r s
+  | _ :: r => pf_lookup r s
+  end.
+Definition pf_of (t : term) : string -> option string := let l := gl t in fun s => pf_lookup l s.
 Definition js_of (t : term) : string -> string :=
   let l := gl t in fun s => match assoc_str l s with Some (TS c) => c | _ => s end.
 
